@@ -280,3 +280,28 @@ def fresh_programs(seed, n, syms=gen.SYMS, tids=None):
                     steps.append(rel("obs", f"C15.same_with_cache_env.{op}", u, v))
         progs.append({"tid": tids(), "inputs": inputs, "steps": steps})
     return progs
+
+
+def stress_programs(seed, n, tids=None):
+    """Free-running threads on shared arrays (special/stress.py): fuses in both strategies, reshapes and fused
+    contractions that hit the same cached plans from every thread."""
+    tids = tids or gen.Tids()
+    progs = []
+    for i in range(n):
+        rng = gen.rng_for(seed, "stress", i)
+        sym = gen.STATIC_SYMS[i % len(gen.STATIC_SYMS)]
+        kind = rng.choice(["abelian", "fermionic"])
+        a = gen.rand_array(rng, sym, 4, kind, sparse=0.2, maxc=2, maxd=3, phases=0.3 if kind == "fermionic" else 0.0)
+        b = gen.rand_array(rng, sym, 3, kind, sparse=0.2, maxc=3, maxd=3, phases=0.3 if kind == "fermionic" else 0.0)
+        from .fuse import total_shape
+        sa, sb = total_shape(a), total_shape(b)
+        calls = [{"op": "fuse", "in": ["a"], "args": {"groups": [[0, 1], [2, 3]]}},
+                 {"op": "fuse", "in": ["a"], "args": {"groups": [[3, 0]], "mode": "concat"}},
+                 {"op": "fuse", "in": ["b"], "args": {"groups": [[1, 2]]}},
+                 {"op": "reshape", "in": ["a"], "args": {"newshape": [sa[0] * sa[1], sa[2] * sa[3]]}},
+                 {"op": "reshape", "in": ["b"], "args": {"newshape": [sb[0], sb[1] * sb[2]]}},
+                 {"op": "selfdot", "in": ["a"], "args": {"axes": [[0, 1, 2], [0, 1, 2]], "mode": "fused"}},
+                 {"op": "selfdot", "in": ["b"], "args": {"axes": [[0, 2], [0, 2]], "mode": "fused"}}]
+        progs.append({"driver": "stress", "tid": tids(), "arrays": {"a": a, "b": b}, "calls": calls,
+                      "nthreads": 8, "iters": rng.choice([20, 40]), "maxsize": rng.choice([8192, 8192, 2])})
+    return progs
